@@ -476,6 +476,89 @@ def rule_classes(ctx):
     return res.finish(2)
 
 
+def rule_everybatch(ctx):
+    """Replaying a history batch by batch gives the recurrence only if every batch is applied: `fit_with` has no path that
+    returns the model without the update (a "nothing to do" shortcut keyed on a sum that cancels, say)."""
+    res = RuleResult("R-C15-everybatch", "FTRL fit_with applies the update on every non-error path (no early Ok before update_params)")
+    F = ctx.facts()
+    fws = [f for f in fns_of(F, "linfa_ftrl", "fit_with", trait="FitWith")]
+    if not fws:
+        res.missing_anchor("<FtrlValidParams as FitWith>::fit_with")
+    for fn in fws:
+        c = fn["crate"]
+        r = Render(c)
+        key = fn_key(fn)
+        res.instance(key)
+        upd = next((y for y in walk(fn["body"]) if y.get("k") == "MethodCall" and y["name"] in ("update_params", "update")), None)
+        if upd is None:
+            res.undecided("%s : update-call" % key, "no call of update_params (fail closed)", fn_loc(fn))
+            continue
+        early = None
+        for y in walk(fn["body"]):
+            if y.get("k") == "Ret" and y.get("e") is not None and (y.get("ln") or 0) < (upd.get("ln") or 0):
+                nm, _ = callee(c, peel_refs(y["e"]))
+                if nm not in ("Err", "from_residual"):      # `?` desugars to `return from_residual(..)`
+                    early = y
+        if early is not None:
+            res.violate("%s : batch-skipped-on-some-path" % key, "`%s` returns the model before update_params: the batch that takes this path leaves z and n untouched, and the replayed history no longer follows the recurrence" % r.e(early)[:50], fn_loc(fn, early.get("ln")))
+        else:
+            res.ok()
+    return res.finish(1)
+
+
+def rule_pooledvar(ctx):
+    """The pooled variance of old and new observations is combined from sums of squared deviations (plus the between-group
+    term).  The second-moment form (n_o (v_o + m_o^2) + n_n (v_n + m_n^2)) / n - m^2 is equal in exact arithmetic and loses
+    the variance to cancellation when |mean| is large against the spread - for every class that a later batch updates, while
+    a single fit stays exact."""
+    res = RuleResult("R-C15-pooledvar", "GaussianNb::update_mean_variance does not obtain the pooled variance as a second moment minus the squared mean")
+    F = ctx.facts()
+    fns = fns_of(F, "linfa_bayes", "update_mean_variance")
+    if not fns:
+        res.missing_anchor("update_mean_variance")
+    for fn in fns:
+        c = fn["crate"]
+        r = Render(c)
+        key = fn_key(fn)
+        res.instance(key)
+        inits = lets(fn)
+
+        def is_square(e):
+            e = peel_refs(e)
+            if e.get("k") == "MethodCall" and e["name"] in ("mapv", "map", "mapv_into") and e["args"] and strip(e["args"][0]).get("k") == "Closure":
+                b = strip(strip(e["args"][0])["body"])
+                while b.get("k") == "Block" and not b.get("stmts") and b.get("e") is not None:
+                    b = strip(b["e"])
+                if b.get("k") == "MethodCall" and b["name"] in ("powi", "powf") and b["args"] and str(peel_refs(b["args"][0]).get("v", "")).rstrip(".0f3264_") == "2":
+                    return peel_refs(e["recv"])
+                if b.get("k") == "Binary" and b["op"] == "*" and peel_refs(b["l"]).get("local") is not None and peel_refs(b["l"]).get("local") == peel_refs(b["r"]).get("local"):
+                    return peel_refs(e["recv"])
+            if e.get("k") == "Binary" and e["op"] == "*" and peel_refs(e["l"]).get("local") is not None and peel_refs(e["l"]).get("local") == peel_refs(e["r"]).get("local"):
+                return peel_refs(e["l"])
+            return None
+        # the returned pair
+        tail = fn["body"]
+        while strip(tail).get("k") == "Block" and strip(tail).get("e") is not None:
+            tail = strip(tail)["e"]
+        tail = peel_refs(tail)
+        if tail.get("k") != "Tup" or len(tail["es"]) != 2:
+            res.undecided("%s : result" % key, "the function does not end in a (mean, variance) pair (fail closed)", fn_loc(fn))
+            continue
+        mean_e, var_e = peel_refs(tail["es"][0]), peel_refs(tail["es"][1])
+        if var_e.get("k") == "Path" and var_e.get("local") in inits:
+            var_e = peel_refs(inits[var_e["local"]]["init"])
+        bad = None
+        if var_e.get("k") == "Binary" and var_e["op"] == "-":
+            sq = is_square(var_e["r"])
+            if sq is not None and sq.get("k") == "Path" and mean_e.get("k") == "Path" and sq.get("local") == mean_e.get("local"):
+                bad = var_e
+        if bad is not None:
+            res.violate("%s : variance-from-raw-moments" % key, "`%s`: the pooled variance is a second moment minus the square of the pooled mean - two numbers of size mean^2 whose difference is the variance; the single fit computes squared deviations, so incremental and batch models disagree as soon as |mean| >> spread" % r.e(bad)[:60], fn_loc(fn, bad.get("ln")))
+        else:
+            res.ok()
+    return res.finish(1)
+
+
 def rule_ftrl(ctx):
     """FTRL-proximal: per-coordinate update of z and n from the weights of before the update; exact zeros under the l1 strength"""
     res = RuleResult("R-C15-ftrl", "FTRL: weights are read before z and n are written; z gains the gradient and loses sigma*weights; n gains the squared gradient; sigma precedes the update; a weight is exactly zero when |z| <= l1")
@@ -807,7 +890,7 @@ def rule_fitcounts(ctx):
 
 def rules(tier):
     from . import carry, precision, layout
-    return [rule_classes, rule_sigma0, layout.make_rule("R-C15-memorder", "raw memory-order buffers are used by position only behind a standard-layout test", lambda f: f["d"]["krate"] in ("linfa_bayes", "linfa_ftrl"), "linfa-bayes and linfa-ftrl"),
+    return [rule_everybatch, rule_pooledvar, rule_classes, rule_sigma0, layout.make_rule("R-C15-memorder", "raw memory-order buffers are used by position only behind a standard-layout test", lambda f: f["d"]["krate"] in ("linfa_bayes", "linfa_ftrl"), "linfa-bayes and linfa-ftrl"),
             rule_fitcounts, carry.make_fieldcopy_rule("R-C15-fieldcopy", {"linfa_bayes", "linfa_ftrl", "linfa_clustering"}, 0),
             rule_batch, rule_carry_state, rule_epsilon, rule_counts, rule_kmeans, rule_ftrl,
             carry.make_clone_rule("R-C15-clone", {"linfa_bayes", "linfa_ftrl"}, 6), carry.make_setter_rule("R-C15-override", {"linfa_bayes", "linfa_ftrl"}, 4),
